@@ -77,14 +77,16 @@ def one(base, k, src, combo):
         flags.append('--strict')
     if no_save:
         flags.append('--no_save')
+    # the shape of the --out path varies with the job: nested directory, bare file name, ./name, absolute, deep
+    out_rel = ['res/my.json', 'bare.json', './dot.json', 'a/b/c/deep.json', os.path.join(wd, 'abs', 'abs.json')][k % 5]
     if out:
-        flags += ['--out', 'res/my.json']
+        flags += ['--out', out_rel]
     if no_cpp:
         flags.append('--no_cpp')
     if verb:
         flags.append('--' + verb)
     rc, err = run_cli(wd, fname, flags)
-    expected = os.path.join(wd, 'res', 'my.json') if out else os.path.join(wd, 'output', 'prog.json')
+    expected = os.path.normpath(os.path.join(wd, out_rel)) if out else os.path.join(wd, 'output', 'prog.json')
     files = []
     for root, _, fs in os.walk(wd):
         for fn in fs:
@@ -97,7 +99,8 @@ def one(base, k, src, combo):
         except Exception:
             doc = 'unreadable'
     shutil.rmtree(wd)
-    return {'rc': rc, 'err': err, 'files': sorted(files), 'doc': doc, 'expected': os.path.relpath(expected, wd), 'flags': flags}
+    return {'rc': rc, 'err': err, 'files': sorted(files), 'doc': doc, 'expected': os.path.relpath(expected, wd), 'flags': flags,
+            'wd': wd, 'expected_abs': expected}
 
 
 def run(ctx):
@@ -160,7 +163,7 @@ def run(ctx):
                     if 'raised' in m:
                         ctx.disagree('model.cli(raise)', {**inp, 'model': m})
                     else:
-                        if m['save'] != r['expected'] or m['loop_mode'] != (mode == 'L') or m['fin'] != fin \
+                        if os.path.normpath(os.path.join(r['wd'], m['save'])) != r['expected_abs'] or m['loop_mode'] != (mode == 'L') or m['fin'] != fin \
                                 or m['strict'] != strict or m['use_cpp'] != (not no_cpp):
                             ctx.disagree('model.cli', {**inp, 'model': m, 'expected_path': r['expected']})
                         mode, fin, strict = ('L' if m['loop_mode'] else 'F'), m['fin'], m['strict']
